@@ -290,6 +290,46 @@ func (c *streamCtx) dirC12() []genCase {
 		a.Note, b.Note = "C12 metamorphic "+id+" world A, varied group "+varied, "C12 metamorphic "+id+" world B, varied group "+varied
 		out = append(out, genCase{Single: a, Pair: id, Varied: varied}, genCase{Single: b, Pair: id, Varied: varied})
 	}
+	// directed pairs: the same world with and without a failure (or a lag lookup) confined to the FIRST group; the later groups'
+	// scans must not notice
+	for i, fail := range []string{"lag-lookup-fails", "lag-lookup", "update", "terminate", "setdesired", "get"} {
+		build := func(withFail bool) *scanSpec {
+			s := newSpec(c.base, nsOffsets[i%3])
+			for gi, name := range []string{"g1", "g2", controller.DefaultNodeGroup} {
+				b := s.group(name)
+				b.o.MinNodes = 0
+				b.node(0, 7200)
+				b.node(1, 7300)
+				b.node(2, 90000)
+				b.node(3, 8000, escAge(c.base, 1000))
+				b.node(4, 8100, forced())
+				if name == "g1" && withFail {
+					switch fail {
+					case "lag-lookup-fails": // the post-cool-down registration-lag lookup runs and DescribeInstances fails
+						b.st.ScaleDelta, b.st.LastOutAgeNs = 2, i64p(sec(3000))
+						b.aws.DescInstFail = true
+					case "lag-lookup":
+						b.st.ScaleDelta, b.st.LastOutAgeNs = 2, i64p(sec(3000))
+					case "update":
+						b.k8s.UpdateFail = []string{b.nodeName(2)}
+					case "terminate":
+						b.aws.TermInAsgFail = []string{b.instanceOf(3)}
+					case "setdesired":
+						b.aws.SetDesiredFail = true
+					case "get":
+						b.k8s.GetFail = []string{b.nodeName(2)}
+					}
+				}
+				b.util([]int64{10, 200, 55}[(gi+i)%3], 0, true, false)
+				b.done()
+			}
+			return s
+		}
+		a, bb := build(false), build(true)
+		id := fmt.Sprintf("dpair%02d", i)
+		a.Note, bb.Note = "C12 directed pair "+id+" world A (no failure)", "C12 directed pair "+id+" world B: g1 "+fail
+		out = append(out, genCase{Single: a, Pair: id, Varied: "g1"}, genCase{Single: bb, Pair: id, Varied: "g1"})
+	}
 	// three groups, one of them `default`, every kind of action in one scan; a failure confined to one group
 	for i, fail := range []string{"", "g1-update", "g2-terminate", "default-setdesired", "g1-fatal"} {
 		s := newSpec(c.base, nsOffsets[i%3])
